@@ -394,4 +394,291 @@ example : PlainObj (.mk { types := ["object"], required := ["port"], props := [(
     PlainObj (.mk { props := [("tls", .mk { types := ["boolean"] })] }) :=
   ⟨⟨rfl, rfl, Or.inr rfl, rfl, rfl, rfl, rfl, by simp [akeys]⟩, ⟨rfl, rfl, Or.inl rfl, rfl, rfl, rfl, rfl, by simp [akeys]⟩⟩
 
+
+/-! ### … also when branches OVERLAP in properties they declare identically (C11: "overlapping or disjoint property sets") -/
+
+/-- two property maps agree where they overlap: a key both declare has the same schema in both, and merging that schema
+    with itself changes nothing (true of every scalar leaf: `leaf_idem`) -/
+def Compat (a b : List (String × Schema)) : Prop :=
+  ∀ k va vb, alookup k a = some va → alookup k b = some vb → va = vb ∧ ∀ g, mergeNode (g + 1) va vb = va
+
+theorem map_replace_same (k : String) (old : Schema) :
+    ∀ d : List (String × Schema), (akeys d).Nodup → alookup k d = some old →
+      d.map (fun (p : String × Schema) => if p.1 = k then (k, old) else p) = d := by
+  intro d
+  induction d with
+  | nil => intro _ h; simp [alookup] at h
+  | cons q rest ih =>
+    obtain ⟨k', v'⟩ := q
+    intro hnd hl
+    simp only [akeys, List.map_cons, List.nodup_cons] at hnd
+    simp only [alookup] at hl
+    by_cases e : k = k'
+    · subst e
+      simp only [↓reduceIte] at hl
+      injection hl with hl; subst hl
+      simp only [List.map_cons, ↓reduceIte]
+      congr 1
+      -- no other entry has the key
+      have : ∀ p ∈ rest, p.1 ≠ k := by
+        intro p hp e; apply hnd.1; simp only [List.mem_map]; exact ⟨p, hp, e⟩
+      calc rest.map _ = rest.map id := List.map_congr_left (fun p hp => by simp [this p hp])
+        _ = rest := List.map_id _
+    · simp only [e, ↓reduceIte] at hl
+      have e' : ¬ k' = k := fun h => e h.symm
+      simp only [List.map_cons, e', ↓reduceIte]
+      congr 1
+      exact ih hnd.2 hl
+
+/-- the merged map, through its lookups: the destination's entry where there is one, else the source's -/
+theorem mergeKvs_compat :
+    ∀ (s d : List (String × Schema)) (f : Nat), s.length + 2 < f → Compat d s → (akeys d).Nodup → (akeys s).Nodup →
+      (∀ k, alookup k (mergeKvs f d s) = (match alookup k d with | some v => some v | none => alookup k s)) ∧
+      (akeys (mergeKvs f d s)).Nodup := by
+  intro s
+  induction s with
+  | nil =>
+    intro d f _ _ hd _
+    refine ⟨fun k => ?_, by cases f <;> simpa [mergeKvs] using hd⟩
+    cases f <;> simp only [mergeKvs, alookup] <;> cases alookup k d <;> rfl
+  | cons p rest ih =>
+    obtain ⟨k, v⟩ := p
+    intro d f hf hc hd hs
+    simp only [List.length_cons] at hf
+    obtain ⟨f, rfl⟩ : ∃ f', f = f' + 2 := ⟨f - 2, by omega⟩
+    simp only [akeys, List.map_cons, List.nodup_cons] at hs
+    have hkrest : alookup k rest = none := (alookup_none_iff_not_mem k rest).mpr hs.1
+    simp only [mergeKvs, mergeEntry]
+    cases hk : alookup k d with
+    | some old =>
+      -- the key is already there with the same schema: nothing changes
+      obtain ⟨e, hidem⟩ := hc k old v hk (by simp [alookup])
+      subst e
+      obtain ⟨f', rfl⟩ : ∃ f', f = f' + 1 := ⟨f - 1, by omega⟩
+      simp only [hidem f', map_replace_same k old d hd hk]
+      have hc' : Compat d rest := by
+        intro k0 va vb h1 h2
+        apply hc k0 va vb h1
+        simp only [alookup]
+        by_cases e0 : k0 = k
+        · subst e0; rw [hkrest] at h2; cases h2
+        · simp [e0, h2]
+      obtain ⟨hl, hn⟩ := ih d (f' + 2) (by omega) hc' hd hs.2
+      refine ⟨fun k0 => ?_, hn⟩
+      rw [hl k0]
+      cases h0 : alookup k0 d with
+      | some x => rfl
+      | none =>
+        have : k0 ≠ k := by intro e0; subst e0; rw [hk] at h0; cases h0
+        simp [alookup, this]
+    | none =>
+      have hknot : k ∉ akeys d := (alookup_none_iff_not_mem k d).mp hk
+      have hd' : (akeys (d ++ [(k, v)])).Nodup := by
+        simp only [akeys, List.map_append, List.map_cons, List.map_nil]
+        rw [List.nodup_append]
+        refine ⟨hd, by simp, ?_⟩
+        intro x hx y hy e; simp at hy; subst hy; subst e; exact hknot hx
+      have hc' : Compat (d ++ [(k, v)]) rest := by
+        intro k0 va vb h1 h2
+        rw [alookup_append] at h1
+        cases h0 : alookup k0 d with
+        | some x =>
+          rw [h0] at h1; injection h1 with h1; subst h1
+          apply hc k0 x vb h0
+          simp only [alookup]
+          by_cases e0 : k0 = k
+          · subst e0; rw [hk] at h0; cases h0
+          · simp [e0, h2]
+        | none =>
+          rw [h0] at h1
+          simp only [alookup] at h1
+          by_cases e0 : k0 = k
+          · subst e0; rw [hkrest] at h2; cases h2
+          · simp [e0] at h1
+      obtain ⟨hl, hn⟩ := ih (d ++ [(k, v)]) (f + 1) (by omega) hc' hd' hs.2
+      refine ⟨fun k0 => ?_, hn⟩
+      rw [hl k0, alookup_append]
+      cases h0 : alookup k0 d with
+      | some x => rfl
+      | none =>
+        simp only [alookup]
+        by_cases e0 : k0 = k
+        · simp [e0]
+        · simp [e0]
+
+/-- `validProps` sees a property map only through its lookups -/
+theorem validProps_congr (defs : Spec.Defs) (p p' : List (String × Schema)) (all : List (String × Json))
+    (h : ∀ k, alookup k p = alookup k p') :
+    ∀ (kvs : List (String × Json)) (F : Nat), Spec.validProps F defs p none all kvs = Spec.validProps F defs p' none all kvs := by
+  intro kvs
+  induction kvs with
+  | nil => intro F; cases F <;> simp [Spec.validProps]
+  | cons q rest ih =>
+    obtain ⟨k, v⟩ := q
+    intro F
+    cases F with
+    | zero => simp [Spec.validProps]
+    | succ F => simp only [Spec.validProps, h k, ih F]
+
+/-- the per-entry check splits over two compatible property maps -/
+theorem validProps_compat (defs : Spec.Defs) (pa pb pm : List (String × Schema)) (all : List (String × Json))
+    (hc : Compat pa pb)
+    (hm : ∀ k, alookup k pm = (match alookup k pa with | some v => some v | none => alookup k pb)) :
+    ∀ (kvs : List (String × Json)) (F : Nat),
+      Spec.validProps F defs pm none all kvs =
+        (Spec.validProps F defs pa none all kvs && Spec.validProps F defs pb none all kvs) := by
+  intro kvs
+  induction kvs with
+  | nil => intro F; cases F <;> simp [Spec.validProps]
+  | cons q rest ih =>
+    obtain ⟨k, v⟩ := q
+    intro F
+    cases F with
+    | zero => simp [Spec.validProps]
+    | succ F =>
+      simp only [Spec.validProps, ih F, hm k]
+      cases ha : alookup k pa with
+      | some x =>
+        cases hb : alookup k pb with
+        | some y =>
+          obtain ⟨e, _⟩ := hc k x y ha hb
+          subst e
+          simp only
+          cases Spec.valid F defs x v <;> cases Spec.validProps F defs pa none all rest <;> cases Spec.validProps F defs pb none all rest <;> rfl
+        | none =>
+          simp only
+          cases Spec.valid F defs x v <;> cases Spec.validProps F defs pa none all rest <;> cases Spec.validProps F defs pb none all rest <;> rfl
+      | none =>
+        simp only
+        cases alookup k pb with
+        | none => simp
+        | some y =>
+          simp only [Bool.true_and]
+          cases Spec.valid F defs y v <;> cases Spec.validProps F defs pa none all rest <;> cases Spec.validProps F defs pb none all rest <;> rfl
+
+/-- branches agree where they overlap -/
+def CompatS (a b : Schema) : Prop := Compat a.node.props b.node.props
+
+theorem merge_plainObj_compat (a b : Schema) (g : Nat) (ha : PlainObj a) (hb : PlainObj b)
+    (hc : CompatS a b) (hg : b.node.props.length + 2 < g) :
+    PlainObj (mergeNode (g + 1) a b) ∧
+    (∀ k, alookup k (mergeNode (g + 1) a b).node.props =
+      (match alookup k a.node.props with | some v => some v | none => alookup k b.node.props)) ∧
+    (mergeNode (g + 1) a b).node.required = a.node.required ++ b.node.required := by
+  obtain ⟨na⟩ := a
+  obtain ⟨nb⟩ := b
+  obtain ⟨a1, a2, a3, a4, a5, a6, a7, a8⟩ := ha
+  obtain ⟨b1, b2, b3, b4, b5, b6, b7, b8⟩ := hb
+  simp only [CompatS, node_mk] at *
+  obtain ⟨hl, hn⟩ := mergeKvs_compat nb.props na.props g hg hc a8 b8
+  have hp : (mergeNode (g + 1) (.mk na) (.mk nb)).node.props = mergeKvs g na.props nb.props := by
+    simp only [mergeNode, node_mk]
+  refine ⟨⟨?_, ?_, ?_, ?_, ?_, ?_, ?_, ?_⟩, ?_, ?_⟩
+  · simp [mergeNode, firstStr, a1, b1]
+  · simp [mergeNode, a2, b2]
+  · simp only [mergeNode, node_mk]
+    rcases a3 with e | e <;> rcases b3 with e' | e' <;> simp [e, e']
+  · simp [mergeNode, a4, b4]
+  · simp [mergeNode, a5, b5]
+  · simp [mergeNode, a6, b6]
+  · simp [mergeNode, a7, b7, mergeOpt]
+  · rw [hp]; exact hn
+  · rw [hp]; exact hl
+  · simp [mergeNode]
+
+/-- two branches that may overlap: the merged schema admits an object iff both branches do -/
+theorem merge_valid_conj_compat (defs : Spec.Defs) (a b : Schema) (g : Nat) (ha : PlainObj a) (hb : PlainObj b)
+    (hc : CompatS a b) (hg : b.node.props.length + 2 < g) (kvs : List (String × Json)) (F : Nat) :
+    Spec.valid F defs (mergeNode (g + 1) a b) (.obj kvs) =
+      (Spec.valid F defs a (.obj kvs) && Spec.valid F defs b (.obj kvs)) := by
+  obtain ⟨hm, hp, hr⟩ := merge_plainObj_compat a b g ha hb hc hg
+  match F with
+  | 0 => simp [(valid_low defs _ hm _).1, (valid_low defs _ ha _).1]
+  | 1 => simp [(valid_low defs _ hm _).2, (valid_low defs _ ha _).2]
+  | F + 2 =>
+    rw [valid_plainObj defs _ hm, valid_plainObj defs _ ha, valid_plainObj defs _ hb, hr,
+      validProps_compat defs a.node.props b.node.props _ kvs hc hp, List.all_append]
+    generalize a.node.required.all _ = r1
+    generalize b.node.required.all _ = r2
+    cases r1 <;> cases r2 <;> cases Spec.validProps (F + 1) defs a.node.props none kvs kvs <;>
+      cases Spec.validProps (F + 1) defs b.node.props none kvs kvs <;> rfl
+
+/-- compatibility with a merge follows from compatibility with both parts -/
+theorem compat_merge (a b x : Schema) (g : Nat) (ha : PlainObj a) (hb : PlainObj b) (hc : CompatS a b)
+    (hg : b.node.props.length + 2 < g) (hax : CompatS a x) (hbx : CompatS b x) : CompatS (mergeNode (g + 1) a b) x := by
+  obtain ⟨_, hp, _⟩ := merge_plainObj_compat a b g ha hb hc hg
+  intro k va vb h1 h2
+  rw [hp k] at h1
+  cases h0 : alookup k a.node.props with
+  | some y => rw [h0] at h1; injection h1 with h1; subst h1; exact hax k y vb h0 h2
+  | none => rw [h0] at h1; exact hbx k va vb h1 h2
+
+theorem fold_valid_conj_compat (defs : Spec.Defs) (kvs : List (String × Json)) (F : Nat) :
+    ∀ (bs : List Schema) (acc : Schema), PlainObj acc → (∀ b ∈ bs, PlainObj b) → (∀ b ∈ bs, b.node.props.length < 60) →
+      (∀ b ∈ bs, CompatS acc b) → bs.Pairwise CompatS →
+      Spec.valid F defs (bs.foldl (fun acc b => mergeNode 64 acc b) acc) (.obj kvs) =
+        (Spec.valid F defs acc (.obj kvs) && bs.all (fun b => Spec.valid F defs b (.obj kvs))) := by
+  intro bs
+  induction bs with
+  | nil => intro acc _ _ _ _ _; simp
+  | cons b rest ih =>
+    intro acc hacc hall hlen hdis hpw
+    have hb := hall b (List.mem_cons_self ..)
+    have hcb := hdis b (List.mem_cons_self ..)
+    have hg : b.node.props.length + 2 < 63 := by have := hlen b (List.mem_cons_self ..); omega
+    obtain ⟨hm, _, _⟩ := merge_plainObj_compat acc b 63 hacc hb hcb hg
+    rw [List.pairwise_cons] at hpw
+    simp only [List.foldl_cons, List.all_cons]
+    rw [ih (mergeNode 64 acc b) hm (fun x hx => hall x (List.mem_cons_of_mem _ hx)) (fun x hx => hlen x (List.mem_cons_of_mem _ hx))
+        (fun x hx => compat_merge acc b x 63 hacc hb hcb hg (hdis x (List.mem_cons_of_mem _ hx)) (hpw.1 x hx)) hpw.2,
+      merge_valid_conj_compat defs acc b 63 hacc hb hcb hg, Bool.and_assoc]
+
+/-- **C11, allOf = conjunction, overlapping branches included**: plain object branches that agree on every property two
+    of them declare (same schema, merge-idempotent — e.g. any scalar leaf, `leaf_idem`): the schema `schemas.MergeTypes`
+    folds them into admits an object iff every branch admits it -/
+theorem allOf_is_conjunction_overlap (defs : Spec.Defs) (bs : List Schema) (m : Schema)
+    (hplain : ∀ b ∈ bs, PlainObj b) (hlen : ∀ b ∈ bs, b.node.props.length < 60) (hpw : bs.Pairwise CompatS)
+    (hprim : isPrimitiveTypeList bs = false) (hm : mergeTypes bs = .ok m)
+    (kvs : List (String × Json)) (F : Nat) :
+    Spec.valid F defs m (.obj kvs) = bs.all (fun b => Spec.valid F defs b (.obj kvs)) := by
+  unfold mergeTypes at hm
+  cases bs with
+  | nil => simp at hm
+  | cons b0 rest =>
+    simp only [List.isEmpty_cons, Bool.false_eq_true, ↓reduceIte, hprim] at hm
+    split at hm
+    · cases hm
+    · injection hm with hm
+      subst hm
+      rw [valid_flags, fold_fst,
+        fold_valid_conj_compat defs kvs F (b0 :: rest) (.mk {}) plainObj_empty hplain hlen
+          (by intro b _ k va vb h _; simp [alookup] at h) hpw]
+      cases hall : (b0 :: rest).all (fun b => Spec.valid F defs b (.obj kvs)) with
+      | false => simp
+      | true =>
+        have h0 : Spec.valid F defs b0 (.obj kvs) = true := by
+          simp only [List.all_cons, Bool.and_eq_true] at hall; exact hall.1
+        rw [valid_empty_of_valid defs b0 (hplain b0 (List.mem_cons_self ..)) kvs F h0]; rfl
+
+/-- a scalar leaf (no required / enum / composition / members / items / additionalProperties, no bound that is 0 next
+    to … itself) merges with itself to itself: what `Compat` asks of a shared property -/
+theorem leaf_idem (n : NodeF Schema) (g : Nat)
+    (h1 : n.enum = none) (h2 : n.required = []) (h3 : n.props = []) (h4 : n.defs = []) (h5 : n.allOf = []) (h6 : n.anyOf = [])
+    (h7 : n.items = none) (h8 : n.addl = none) :
+    mergeNode (g + 1) (.mk n) (.mk n) = .mk n := by
+  have r : ∀ x : Option Rat, firstRat x x = x := by
+    intro x; cases x with
+    | none => rfl
+    | some q => simp [firstRat]
+  have xb : ∀ x : XB, firstXB x x = x := by intro x; cases x <;> rfl
+  simp only [mergeNode, node_mk, h1, h2, h3, h4, h5, h6, h7, h8, r, xb, firstStr, firstInt, mergeOpt, ite_self,
+    List.append_nil, Bool.or_self]
+  have i1 : ∀ x : String, (if x = "" then x else x) = x := fun x => ite_self x
+  have i2 : ∀ x : Int, (if x = 0 then x else x) = x := fun x => ite_self x
+  have i3 : ∀ x : Option Json, (match x with | none => x | some v => some v) = x := by intro x; cases x <;> rfl
+  have i4 : ∀ x : Option GoExt, (match x with | none => x | some e => some e) = x := by intro x; cases x <;> rfl
+  cases g <;> simp [mergeKvs] <;> (cases n; simp_all) <;>
+    (refine ⟨?_, ?_, ?_, ?_, ?_, ?_, ?_, ?_, ?_, ?_, ?_⟩ <;> first | exact ite_self _ | (split <;> rfl))
+
+
 end GJS.Props.C11
